@@ -591,6 +591,17 @@ func vjDecodeInto(val interface{}, target interface{}) error {
 	case *interface{}:
 		*t = val
 		return nil
+	case *[]interface{}:
+		if val == nil {
+			*t = nil
+			return nil
+		}
+		l, ok := val.([]interface{})
+		if !ok {
+			return vErrJSON
+		}
+		*t = l
+		return nil
 	case *Map:
 		if val == nil {
 			*t = nil
